@@ -209,7 +209,9 @@ def finishOp (d : TD) (prop : String) (toks : List String) (impl : String) (t' :
   let slow' := fixLists d.t t'' slow
   let d' := { d with t := t'', slow := slow', active := active }
   let selfIdx := d.bo.length - 1
-  let mon := (if prop == "C18" then [] else invMonitor d selfIdx impl) ++ (if prop == "C07" then [] else policyMonitor d toks d.prev impl)
+  -- "at most 10 replacements" is stated by both properties
+  let inv := invMonitor d selfIdx impl
+  let mon := (if prop == "C18" then inv.filter (· == "replacements_le_10") else inv) ++ (if prop == "C07" then [] else policyMonitor d toks d.prev impl)
   let out : Res := { model := pre ++ snap d', monitor := mon, tags := tags, nontrivial := (allEntries d.t).length ≥ 8 }
   ({ d' with prev := impl }, out)
 
@@ -288,7 +290,7 @@ def step (prop : String) (d : TD) (toks : List String) (impl : String) : TD × R
     -- updates of one handler, which take the table mutex separately).
     let selfIdx := d.bo.length - 1
     let mon := (invMonitor d selfIdx impl).filter fun c => c != "reval_lists_agree" || kv toks "phase" == "drained"
-    (d, { model := "", skipCompare := true, monitor := if prop == "C18" then [] else mon, tags := ["tsnap", kv toks "phase"] })
+    (d, { model := "", skipCompare := true, monitor := if prop == "C18" then mon.filter (· == "replacements_le_10") else mon, tags := ["tsnap", kv toks "phase"] })
   | "tabpanic" :: _ => (d, { model := "no-panic", monitor := ["table_operation_panics"], tags := ["tabpanic"] })
   | _ => (d, { model := "bad-op", tags := ["bad-op"], nontrivial := false })
 
